@@ -285,8 +285,15 @@ func partsView(text, ct string) any {
 		if err != nil {
 			return nil
 		}
-		out = append(out, map[string]any{"name": part.FormName(), "ct": part.Header.Get("Content-Type"),
-			"text": string(b), "json": jsonView(string(b))})
+		pv := map[string]any{"name": part.FormName(), "ct": part.Header.Get("Content-Type"),
+			"text": string(b), "json": jsonView(string(b))}
+		switch c06Base(part.Header.Get("Content-Type")) {
+		case "application/yaml", "application/x-yaml":
+			pv["yaml"] = yamlView(string(b))
+		case "text/csv":
+			pv["csv"] = csvView(string(b))
+		}
+		out = append(out, pv)
 	}
 	return out
 }
@@ -500,7 +507,7 @@ func c06Encodings(v any) map[string]*openapi3.Encoding {
 	out := map[string]*openapi3.Encoding{}
 	for _, e := range l {
 		m := e.(map[string]any)
-		enc := &openapi3.Encoding{Style: jstr(m, "style")}
+		enc := &openapi3.Encoding{Style: jstr(m, "style"), ContentType: jstr(m, "contentType")}
 		if b, ok := m["explode"].(bool); ok {
 			enc.Explode = &b
 		}
@@ -1121,6 +1128,10 @@ func genMultipart(ctx *hx.Ctx, emit func(hx.Case)) {
 		{name: "b", ct: "application/json", text: "6 7"},
 		{name: "b", ct: "application/json; charset=utf-8; x=1", text: `"w"`},
 		{name: "a", ct: "text/plain; charset=ascii; format=flowed", text: "hello"},
+		{name: "a", ct: "application/yaml", text: "k: 1\n"},
+		{name: "a", ct: "application/x-yaml; charset=utf-8", text: "k: [1"},
+		{name: "b", ct: "text/csv", text: "x,y\n1,2\n"},
+		{name: "a", ct: "application/octet-stream", text: "\x00\x01bin"},
 	}
 	aSchemas := []any{sch("ty", "string"), sch("ty", "integer"), sch("ty", "array", "items", sch("ty", "string")),
 		sch("ty", "array", "items", sch("ty", "integer")), sch("ty", "object", "props", []any{[]any{"k", sch("ty", "integer")}}), sch("ty", "string", "ro", true)}
@@ -1154,6 +1165,15 @@ func genMultipart(ctx *hx.Ctx, emit func(hx.Case)) {
 					text := renderMultipart(bd, l, false)
 					emit(mkCase(true, []any{mtEntry("multipart/form-data", s)}, mct, text, cnt%4 == 0))
 				}
+			}
+		}
+	}
+	{
+		se := sch("ty", "object", "props", []any{[]any{"a", sch("ty", "object", "props", []any{[]any{"k", sch("ty", "integer")}})}, []any{"b", sch("ty", "string")}})
+		for _, enc := range []any{map[string]any{"name": "a", "contentType": "application/json"}, map[string]any{"name": "a", "contentType": "text/plain"},
+			map[string]any{"name": "a", "contentType": "application/json, application/yaml", "style": "form"}, map[string]any{"name": "b", "contentType": "application/json", "explode": false}} {
+			for _, l := range [][]c06Part{{pool[2]}, {pool[0]}, {pool[2], pool[5]}, {pool[13]}, {pool[2], pool[6]}, {{name: "a", ct: "", text: `{"k":1}`}}} {
+				emit(mkCase(true, []any{mtEntry("multipart/form-data", se, enc)}, mct, renderMultipart(bd, l, false), false))
 			}
 		}
 	}
